@@ -165,6 +165,7 @@ def wrapper_forwards(ctx, R, rule):
         ct = v.call_term(r)
         if ct is not None and callee_is(ct, trait="MomTropFloat", name="to_f64"):
             r = v.root(ct["args"][0])
+        r = common.through_identity_views(v, r)
         if r.kind != "arg":
             bad.append("argument %d is %r" % (i, r))
     ctx.ob(rule, "the wrapper passes to_f64 of its own parameters (shape, probability, tolerance) and its iteration bound to the f64 routine unmodified",
